@@ -191,6 +191,13 @@ def discover(f, found=None):
     # ---- protocol ----------------------------------------------------------------------------------------------
     propose("protocol::body::make_request_epilogue", [p for p, d in fns.items() if p.startswith("protocol::body::") and p.count("::") == 2 and restricted(p)
                                                      and re.search(r"fn\(u16, [\w:]*ExitStatus, &(?:'\w+ )?\[[\w:]*RecordType\]\)", d.get("sig", ""))])
+    # ---- cgi: the private representation enum behind the public name type ---------------------------------------
+    ov = f.adts.get("cgi::OwnedVarName")
+    if ov and ov.get("variants") and len(ov["variants"][0]["fields"]) == 1:
+        t0 = norm(ov["variants"][0]["fields"][0]["ty"])
+        if t0.startswith("cgi::") and t0 in f.adts and f.adts[t0].get("vis") != "pub":
+            propose("cgi::VarNameInner", [t0])
+
     # ---- private fields, by their type within the struct (the rules name them) -----------------------------------
     fren = {}
 
